@@ -74,5 +74,18 @@ func validA58(a58 []byte) (bool, error) {
 		return false, ErrEncodingChecksumFailed
 	}
 
+	// Base58Check is canonical: every leading zero byte of the payload is
+	// encoded as exactly one leading '1', no more and no fewer.
+	var zeros, ones int
+	for zeros < len(a) && a[zeros] == 0 {
+		zeros++
+	}
+	for ones < len(a58) && a58[ones] == tmpl[0] {
+		ones++
+	}
+	if zeros != ones {
+		return false, ErrEncodingLeadingZeros
+	}
+
 	return true, nil
 }
